@@ -543,7 +543,16 @@ func (ex *Exec) store(st *State, p *PtrV, v Term, site ssa.Instruction) {
 		fr.cells[p.Cell] = ex.storePath(root, p.Root, p.Path, v)
 		return
 	case p.Global != nil && p.GArr:
-		ex.unsupportedf("store to an element of the package-level array %s", p.Global.Name())
+		ex.frameWrite(st, site, "global "+p.Global.Name(), tFalse)
+		ex.captureWrite(st, site, "package-level variable "+p.Global.Name())
+		arr := ex.globalVal(st, p.Global)
+		es := ex.w.sortOf(p.Root, ex.d)
+		nv := v
+		if len(p.Path) > 0 {
+			nv = ex.storePath(sel(arr, p.Idx, es), p.Root, p.Path, v)
+		}
+		st.globals[p.Global.String()] = sto(arr, p.Idx, nv)
+		return
 	case p.Global != nil:
 		ex.frameWrite(st, site, "global "+p.Global.Name(), tFalse)
 		ex.captureWrite(st, site, "package-level variable "+p.Global.Name())
